@@ -93,6 +93,9 @@ pub enum Entry {
     ApiText,
     /// FileBackedProject::push per file (reads and decodes from disk) + semantic()
     ApiPush,
+    /// a language server whose workspace folder is the directory (it reads and decodes the files
+    /// at initialize), asked for the semantic tokens of every file
+    LspTokens,
 }
 
 #[derive(Clone, Debug, Serialize, Deserialize, PartialEq)]
@@ -370,11 +373,20 @@ pub fn exec_variant(world: &World, v: &Variant) -> Obs {
     let texts: Vec<(PathBuf, String)> = v.files.iter().map(|f| (r.join("ws").join(&f.name), file_text(world, f))).collect();
     let root_str = r.to_string_lossy().to_string();
 
+    if entry == Entry::LspTokens {
+        return exec_lsp_tokens(v);
+    }
+    // the whole simulated process runs in a forked child (fresh process-global state, isolated
+    // crashes); inside it the entry point runs on a fresh thread so that the hash keys of std are
+    // drawn anew from the seeded randomness
+    let hash_seed = v.hash_seed;
+    let forked = crate::seam::run_forked(move || {
     crate::seam::capture_begin();
-    let result = run_simulated_process(v.hash_seed, Some(hooks.clone()), move || match entry {
+    let result = run_simulated_process(hash_seed, Some(hooks.clone()), move || match entry {
         Entry::Check => (ironplcc::cli::check(&args, false), vec![]),
         Entry::Echo => (ironplcc::cli::echo(&args, false), vec![]),
         Entry::Tokenize => (ironplcc::cli::tokenize(&args, false), vec![]),
+        Entry::LspTokens => unreachable!("handled by exec_lsp_tokens"),
         Entry::ApiText | Entry::ApiPush => {
             let mut project = FileBackedProject::new();
             let mut diags = vec![];
@@ -417,5 +429,53 @@ pub fn exec_variant(world: &World, v: &Variant) -> Obs {
         source_orders: log.source_orders,
         dir_orders: log.dir_orders,
         printed,
+    }
+    });
+    match forked {
+        Ok(obs) => obs,
+        Err(why) => Obs {
+            outcome: Outcome::Panic(why),
+            diags: vec![],
+            probes: BTreeMap::new(),
+            fs_points: vec![],
+            faults_fired: vec![],
+            source_orders: vec![],
+            dir_orders: vec![],
+            printed: Printed::default(),
+        },
+    }
+}
+
+/// The decoded files as the language server sees them: initialize on the workspace folder, then a
+/// semanticTokens/full request per file, then shutdown and exit. Outcome::Panic if the server dies.
+fn exec_lsp_tokens(v: &Variant) -> Obs {
+    use crate::lsp::{Event, Session};
+    let r = root().to_path_buf();
+    let hooks = SimHooks::new(&r, v.dir_seed, v.faults.clone());
+    let ws_uri = format!("file://{}/ws", r.display());
+    let mut s = Session::start(v.hash_seed, hooks.clone(), Some(ws_uri));
+    for (i, f) in v.files.iter().enumerate() {
+        let ev = Event::SemTok { uri: format!("ws:{}", f.name), id_kind: 0 };
+        if let Some(m) = crate::lsp::event_message(&ev, i) {
+            s.deliver(Some(i), "semanticTokens", m);
+        }
+    }
+    let inc = s.shutdown_and_exit();
+    let log = hooks.take_log();
+    let answered = inc.steps.iter().filter(|st| st.label == "semanticTokens" && st.outputs.iter().any(|o| o.get("id").is_some() && o.get("method").is_none())).count();
+    let outcome = match (&inc.died, &inc.result) {
+        (Some(d), _) => Outcome::Panic(d.clone()),
+        (None, Some(Ok(()))) if answered == v.files.len() => Outcome::Ok,
+        (None, other) => Outcome::Err(format!("{answered} of {} token requests answered, server result {other:?}", v.files.len())),
+    };
+    Obs {
+        outcome,
+        diags: vec![],
+        probes: log.probes,
+        fs_points: log.fs_points,
+        faults_fired: log.faults_fired,
+        source_orders: log.source_orders,
+        dir_orders: log.dir_orders,
+        printed: Printed::default(),
     }
 }
